@@ -7,7 +7,8 @@ PROP_V = ["Props/Properties_C14.v", "Props/Properties_C14b.v", "Props/Properties
 GEN_MODULES = ["Consts", "Sites"]
 FLOW_FILES = ['mu.c']
 REPLAY_HINT = "VRT_SEED=<seed> VRT_ADVERSARY=1 VRT_KIND=<0|1|2> _work/h/starve: the trace notes how often the victim slept inside one lock call"
-PARTIAL = ["the property's second sentence is a theorem over runs (Properties_C14c, Proof/MuProof5.v; any number of threads < 2^24 - 1, any programs, any schedule): "
+PARTIAL = ["scope of the C14 theorems: programs of lock / rlock / trylock / unlock over MuModel; transferred cv waiters, nsync_mu_wait callers and mu_try_acquire_after_timeout_or_cancel are outside; the bound LONG_WAIT_THRESHOLD + 4 for fresh-barger adversaries is the starve ORACLE's assertion over sampled adversarial schedules, not a theorem",
+           "the property's second sentence is a theorem over runs (Properties_C14c, Proof/MuProof5.v; any number of threads < 2^24 - 1, any programs, any schedule): "
            "C14_long_wait_transition (MU_LONG_WAIT is set only by a successful enqueue CAS of a thread whose wake-up count reached LONG_WAIT_THRESHOLD and cleared "
            "only by the acquiring CAS of such a thread; no release path touches it), C14_long_wait_owner (the bit has an owner inside lock_slow; an escalated, "
            "enqueued thread sees the bit set unless ANOTHER long waiter acquired since), C14_no_fresh_overtake / C14_single_victim (from the victim's enqueue "
